@@ -42,4 +42,4 @@ def run(ctx, replay=None):
 def real_scheduler_runs(ctx, replay_cases):
     """Driver (b): real schedulers on the ScriptedBackend; the independent checker judges the trace."""
     import tuner_real
-    tuner_real.run_real(ctx, tc.check_c01, replay_cases)
+    tuner_real.run_real(ctx, tc.check_c01, replay_cases, discipline=True)
